@@ -186,6 +186,12 @@ func (lm *levelManager) searchLowerBound(key types.Key) (types.Entry, bool) {
 		return types.Entry{}, false
 	}
 
+	// the newest version of key which is not above the version of key, among all sstables
+	var (
+		latest types.Entry
+		found  bool
+	)
+
 	for level, tables := range lm.levels {
 		for e := tables.Front(); e != nil; e = e.Next() {
 			th := e.Value.(tableHandle)
@@ -205,13 +211,19 @@ func (lm *levelManager) searchLowerBound(key types.Key) (types.Entry, bool) {
 
 			// in this sstable, search according to data block
 			entry, ok := lm.fetchAndSearchLowerBound(key, level, th.levelIdx, dataBlockHandle)
-			if ok {
-				return entry, true
+			if !ok || !types.IsSameKey(key, entry.Key) {
+				// lower bound is another key, search next one
+				continue
+			}
+			// sstables are not ordered by age (L0 append order, recover order),
+			// so every sstable is searched and the newest version wins
+			if !found || types.CompareKeys(entry.Key, latest.Key) < 0 {
+				latest, found = entry, true
 			}
 		}
 	}
 
-	return types.Entry{}, false
+	return latest, found
 }
 
 // TODO: replace with iterator
